@@ -1,10 +1,10 @@
 #!/bin/sh
-# Re-run every kept seeded change against the current checks; one summary line each.
+# Re-run every kept seeded change against the current checks (each on a scratch worktree of /repo); one summary line each.
 cd "$(dirname "$0")/.." || exit 2
 rc=0
 for d in seeded/*/; do
   id=$(basename "$d")
-  out=$(timeout 1800 /venv/bin/python tools/seeded.py "seeded/$id" --budget "${1:-8}" 2>/dev/null) || rc=1
+  out=$(timeout 1800 /venv/bin/python tools/seeded.py "seeded/$id" --scratch --budget "${1:-8}" 2>/dev/null) || rc=1
   printf "%s" "$out" | /venv/bin/python -c "
 import json,sys
 r=json.load(sys.stdin)
